@@ -44,6 +44,11 @@ def run(ck):
     ro = S.m["removeOldFiles"]
     g = S.g(ro)
     NF = RP + "::m_maxFileCount"
+    from rules.rfs import retention_by_cases
+    v_, why_ = retention_by_cases(ck, S, "C06-O3")
+    if v_ is not None:
+        ck.ob("C06-O3", sitestr(ro), v_, why_ if v_ else why_ + ": retention deletes a file that is not among the oldest (or not the right number of them), so a newer log is lost while an older one is kept",
+              key="removeOldFiles|by-cases")
     removes = [n for n in ro.calls() if destructive_kind(n) == "remove"]
     ck.require(len(removes) == 1, "removeOldFiles has %d remove calls" % len(removes))
     rs = g.site_of(removes[0])
